@@ -10,6 +10,7 @@ C12.gate    : in _conform_filename the truncating write of an existing file is d
               by `not path.isfile(filename)` / `original_node is None`.
 C12.targets : every write reachable from ground_truth has the loop's `filename` as its path;
               truth_file is only ever opened read-only.
+C12.state   : no function reachable from ground_truth memoises or keeps module-level state (C10's rules).
 C12.table   : `sync --truth` choices are keys of arg2parse_emit_type (shared with C03.dispatch).
 """
 
@@ -274,6 +275,36 @@ def run(ctx):
             kws = {k.arg: norm(k.value) for k in c.keywords}
             ok = kws.get("filename") == "filename"
             ctx.ob("C12.targets", gt, "_conform_filename(filename={})".format(kws.get("filename")), ok, "" if ok else "target file is not the loop's filename", line=c.lineno)
+            # every listed target is conformed: between the lambda mapped over the file list and the call there is no
+            # condition that skips a file without looking at WHICH KIND of target it is listed as (the loop's kind
+            # variable); a file listed under two kinds holds two different targets
+            kind_vars = set()
+            conds = []
+            child, p_ = c, gt.mod.parents.get(c)
+            while p_ is not None and p_ is not gt.node:
+                if isinstance(p_, ast.IfExp) and child is not p_.test:
+                    conds.append(p_.test)
+                elif isinstance(p_, ast.BoolOp) and child in p_.values[1:]:
+                    conds.extend(p_.values[: p_.values.index(child)])
+                elif isinstance(p_, ast.If) and (child in p_.body or child in p_.orelse):
+                    conds.append(p_.test)
+                elif isinstance(p_, ast.Call) and norm(p_.func) in ("filter", "filterfalse", "takewhile", "dropwhile") and child in p_.args[1:]:
+                    conds.append(p_.args[0])
+                elif isinstance(p_, ast.For):
+                    kind_vars.update(x.id for x in ast.walk(p_.target) if isinstance(x, ast.Name))
+                child, p_ = p_, gt.mod.parents.get(p_)
+            blind = [t for t in conds if not ({x.id for x in ast.walk(t) if isinstance(x, ast.Name)} & kind_vars)]
+            ctx.ob(
+                "C12.targets",
+                gt,
+                "every listed (kind, file) pair reaches _conform_filename",
+                not blind,
+                ""
+                if not blind
+                else "a listed target is skipped when `{}`, a test that does not look at which kind of target the file is listed "
+                "as: the same file listed under another kind is then never created / updated".format(short(blind[0], 80)),
+                line=c.lineno,
+            )
         ctx.note(
             "the truth file is itself listed among the targets and the loop does not skip it, so it can be rewritten "
             "(re-emitted from its own interface); the property only asks that its interface be unchanged"
@@ -300,4 +331,17 @@ def run(ctx):
             ctx.ob("C12.table", gt, "sync --truth {}".format(t), ok, "" if ok else "admitted by the CLI but absent from arg2parse_emit_type {}".format(table), line=gt.node.lineno)
 
     ctx.section(_sec_table)
+
+    def _sec_state():
+        # --------------------------------------------------------------- state
+        # "then is a no-op": a second sync in the same process must see the files as they are now. C10's
+        # module-state / memoisation rules re-run on everything reachable from ground_truth.
+        from . import c10
+
+        reach = graph.reachable([index.func("cdd.shared.conformance.ground_truth").qual])
+        ctx.count("state_functions", len(reach))
+        ctx.need(len(reach) >= 30, "the sync pipeline shrank to {} functions: call graph no longer resolves it".format(len(reach)))
+        c10._modstate(ctx.view(lambda w: getattr(w, "qual", None) in reach, rule="C12.state", prefix="state_"))
+
+    ctx.section(_sec_state)
 
